@@ -58,6 +58,8 @@ type Scenario struct {
 	Twice      bool      `json:"twice,omitempty"`      // run the whole scenario twice in sequence
 	Census     string    `json:"census,omitempty"`     // census group: threads created must not grow with len(Jobs) inside a group
 	WaitBg     bool      `json:"wait_bg,omitempty"`    // Wait is called with context.Background() (jobs keep the cancellable context)
+	// EmitGoexit: the emitter kills its goroutine (the scheduler loop) on its first report, as t.FailNow in a test emitter would
+	EmitGoexit bool `json:"emit_goexit,omitempty"`
 }
 
 func (s *Scenario) String() string {
@@ -97,6 +99,9 @@ func (s *Scenario) String() string {
 	}
 	if s.WaitBg {
 		f += " waitbg"
+	}
+	if s.EmitGoexit {
+		f += " emit-goexit"
 	}
 	return fmt.Sprintf("N=%d%s [%s]", s.N, f, strings.Join(js, " "))
 }
@@ -148,6 +153,9 @@ type emitter struct {
 func (e *emitter) Emit(s scheduler.State) {
 	vs.Emit("emitter", "state", fmt.Sprintf("r%d %+v", e.round, s))
 	e.r.States = append(e.r.States, stateRec{St: s, VC: vs.Now(), Round: e.round})
+	if e.r.Sc.EmitGoexit {
+		runtime.Goexit()
+	}
 }
 
 func jobObj(round, i int) string { return fmt.Sprintf("r%d.job%d", round, i) }
@@ -530,6 +538,30 @@ func Check(r *Run, ex *vs.Exec) []Finding {
 			}
 		}
 		isExitErr := func(e error) bool { return e != nil && e.Error() == "job exited unexpectedly" }
+		isLoopExit := func(e error) bool { return e != nil && e.Error() == "scheduler loop exited unexpectedly" }
+		if s.EmitGoexit {
+			// The emitter killed the scheduler loop: jobs may legitimately never run, but then
+			// Wait must not report success (C07/C08: nil means everything ran).
+			allRan := true
+			for i := range s.Jobs {
+				if len(jr[i].starts) != 1 || !endedOK(i) {
+					allRan = false
+				}
+			}
+			if werr == nil && !allRan {
+				prop := "C07"
+				if s.COE {
+					prop = "C08"
+				}
+				add(prop, "round %d: Wait returned nil although the scheduler loop was killed (by its emitter) before every job had run", rd)
+			}
+			for _, e := range multierr.Errors(werr) {
+				if !isLoopExit(e) {
+					add("C07", "round %d: unexpected error %q after the scheduler loop was killed", rd, e)
+				}
+			}
+			continue
+		}
 		if !s.COE {
 			// C07
 			if werr == nil {
